@@ -82,6 +82,21 @@ def held_lists(rng, ident):
     return scn.line("scn", ident, s, extra="nt=1 family=held-list-results")
 
 
+def late_reply_concurrent_compressed(rng, ident):
+    """a compressed call with a large argument (compressing takes a while) and an ordinary call started right behind it; the
+    first is cancelled (or succeeds), then replies naming ITS sequence number - as seen on the wire - arrive late / again:
+    they must find nothing to write into"""
+    ct = 1
+    s = ["call/c1/%s/%s/%d/-/0/nowait" % (scn.M.hex(), scn.T(scn.arg(1, 200000 + rng.below(40000))), ct), "sleep/%d" % rng.choice([0, 1, 1]),
+         scn.call(2, nowait=True), "waitwrites/2", "settle"]
+    if rng.chance(2, 3):
+        s += [scn.cancel(1), "sample/atreturn", "replyto/1/%s/%d" % (scn.T(scn.arg(1, 5)), ct), "settle", "replyto/1/%s/%d" % (scn.T(scn.arg(7, 9)), ct), "settle"]
+    else:
+        s += ["replyto/1/%s/%d" % (scn.T(scn.arg(1, 5)), ct), "await/c1", "sample/atreturn", "replyto/1/%s/%d" % (scn.T(scn.arg(7, 9)), ct), "settle"]
+    s += ["replyto/2", "await/c2", "settle", "sleep/3", "sample/end"]
+    return scn.line("scn", ident, s, extra="nt=1 family=late-reply-after-concurrent-compressed-call")
+
+
 def normal(rng, ident):
     s = []
     n = 1 + rng.below(3)
@@ -112,6 +127,8 @@ def explore(ctx):
             lines.append(normal(rng, "n%d" % n)); n += 1
         for _ in range({"quick": 8, "thorough": 100, "search": 20}[tier]):
             lines.append(held_lists(rng, "h%d" % n)); n += 1
+        for _ in range({"quick": 10, "thorough": 80, "search": 16}[tier]):
+            lines.append(late_reply_concurrent_compressed(rng, "z%d" % n)); n += 1
         for _ in range({"quick": 3, "thorough": 30, "search": 6}[tier]):
             lines.append(dup_parked(rng, "d%d" % n)); n += 1
         for _ in range({"quick": 6, "thorough": 60, "search": 12}[tier]):
